@@ -267,6 +267,48 @@ theorem commands_refine_reference (d : Char) (S S' : Names) (hS : S.Nodup) :
         rw [if_neg h1, if_pos ((hcont _).mpr h2)]
         simp
 
+/-- **RENAME touches only the renamed hierarchy** — if `RENAME old new` (old ≠ INBOX) succeeds on a table
+    with unique names then (1) every other name that does not have `old` as a superior level stays where
+    it is, (2) every inferior `old ++ d ++ rest` is found at `new ++ d ++ rest`, and (3) nothing else
+    appears: a name of the new table is an old name, a hierarchy level of `new`, or a moved inferior of
+    `old`.  "Inferior" is exact string equality of the levels: no case folding, no pattern matching. -/
+theorem rename_touches_only_own_hierarchy (d : Char) (S S' : Names) (rawOld rawNew : Name) (hS : S.Nodup)
+    (ho : decodeName d rawOld ≠ inboxName) (h : rename d S rawOld rawNew = .ok S') :
+    let o := decodeName d rawOld
+    let n := decodeName d rawNew
+    (∀ z, z ∈ S → z ≠ o → ¬ Spec.IsSuperior d o z → z ∈ S') ∧
+    (∀ rest, o ++ d :: rest ∈ S → n ++ d :: rest ∈ S') ∧
+    (∀ x, x ∈ S' → x ∈ S ∨ x ∈ Spec.levels d n ∨ ∃ rest, o ++ d :: rest ∈ S ∧ x = n ++ d :: rest) := by
+  intro o n
+  obtain ⟨_, _, _, hx⟩ := (commands_refine_reference d S S' hS).2.2.2 rawOld rawNew ho h
+  refine ⟨fun z hz hzo hzs => (hx z).mpr (Or.inl ⟨hz, hzo, hzs⟩),
+    fun rest hr => (hx _).mpr (Or.inr (Or.inr ⟨rest, hr, rfl⟩)), fun x hx' => ?_⟩
+  rcases (hx x).mp hx' with ⟨h1, _, _⟩ | h2 | h3
+  · exact Or.inl h1
+  · exact Or.inr (Or.inl h2)
+  · exact Or.inr (Or.inr h3)
+
+/-- **RENAME leaves the sibling spellings alone** — a name `z ≠ old` of the same length as `old` (in
+    particular one that differs from `old` only in the case of its letters: `Work` next to `work`) and every
+    inferior of `z` are still there after a successful `RENAME old new`: mailbox names other than INBOX are
+    compared exactly. -/
+theorem rename_leaves_sibling_spellings (d : Char) (S S' : Names) (rawOld rawNew : Name) (hS : S.Nodup)
+    (ho : decodeName d rawOld ≠ inboxName) (h : rename d S rawOld rawNew = .ok S')
+    (z : Name) (hz : z ≠ decodeName d rawOld) (hl : z.length = (decodeName d rawOld).length) :
+    (z ∈ S → z ∈ S') ∧ (∀ rest, z ++ d :: rest ∈ S → z ++ d :: rest ∈ S') := by
+  obtain ⟨keep, _, _⟩ := rename_touches_only_own_hierarchy d S S' rawOld rawNew hS ho h
+  refine ⟨fun hin => keep z hin hz ?_, fun rest hin => keep _ hin ?_ ?_⟩
+  · rintro ⟨r, hr⟩
+    have := congrArg List.length hr
+    simp at this
+    omega
+  · intro e
+    have := congrArg List.length e
+    simp at this
+    omega
+  · rintro ⟨r, hr⟩
+    exact hz (List.append_inj_left hr hl)
+
 /-- **Names stay unique** — every command that succeeds keeps the `name` column duplicate-free
     (so does every failing one: it changes nothing). -/
 theorem names_unique_step (d : Char) (S : Names) (c : Cmd) (hS : S.Nodup) : (apply d S c).Nodup := by
@@ -402,5 +444,20 @@ example : run '/' initial [.create ['a', '/', 'b', '/', 'c'], .create ['a', '/',
 
 example : run '/' initial [.create ['i', 'n', 'b', 'o', 'x', '/', 'x'], .rename ['I', 'n', 'b', 'o', 'x'] ['o', 'l', 'd']]
     = [inboxName, recoveryName, inboxName ++ ['/', 'x'], ['o', 'l', 'd']] := by decide
+
+/-- `rename_touches_only_own_hierarchy` / `rename_leaves_sibling_spellings` on sibling hierarchies whose names
+    a loose comparison would confuse with `work`: another letter case, `work` as a prefix without delimiter,
+    LIKE / glob metacharacters that would match it. -/
+example : run '/' initial [.create "Work/reports".toList, .create "work/todo".toList, .create "workshop/x".toList,
+      .create "wor_/x".toList, .create "w%/x".toList, .create "wor*/x".toList, .rename "work".toList "archive".toList]
+    = [inboxName, recoveryName, "Work".toList, "Work/reports".toList, "archive".toList, "archive/todo".toList,
+       "workshop".toList, "workshop/x".toList, "wor_".toList, "wor_/x".toList, "w%".toList, "w%/x".toList,
+       "wor*".toList, "wor*/x".toList] := by decide
+
+/-- renaming onto the other spelling of an existing name is an ordinary rename (no collision), below the first
+    level also for the spellings of INBOX -/
+example : run '/' initial [.create "Work/reports".toList, .create "a/inbox/x".toList, .rename "Work/reports".toList "work".toList,
+      .rename "a/inbox".toList "a/INBOX".toList]
+    = [inboxName, recoveryName, "Work".toList, "work".toList, "a".toList, "a/INBOX".toList, "a/INBOX/x".toList] := by decide
 
 end Gluon.C14
